@@ -28,13 +28,14 @@ mod h {
     }
     fn wid(cx: &Context<'_>) -> usize { cx.waker().data() as usize }
 
-    /// Script of one leaf: readiness = Pending^ready_pend then Ready(Ok) | Ready(Err(rerr)); call future = Pending^call_pend
+    /// Script of one leaf: readiness = an arbitrary answer per poll for the first three polls (0 = Ready(Ok), 1 = Pending,
+    /// 2 = Ready(Err(rerr)); readiness may regress from ready to pending), Ready(Ok) afterwards; call future = Pending^call_pend
     /// then Ok(req + add) | Err(cerr).
     #[derive(Clone, Copy)]
-    struct Script { ready_pend: u8, ready_err: bool, rerr: u8, call_pend: u8, call_err: bool, cerr: u8, add: u8 }
+    struct Script { rs: [u8; 3], rerr: u8, call_pend: u8, call_err: bool, cerr: u8, add: u8 }
     fn any_script() -> Script {
-        let s = Script { ready_pend: kani::any(), ready_err: kani::any(), rerr: kani::any(), call_pend: kani::any(), call_err: kani::any(), cerr: kani::any(), add: kani::any() };
-        kani::assume(s.ready_pend <= 2 && s.call_pend <= 2);
+        let s = Script { rs: kani::any(), rerr: kani::any(), call_pend: kani::any(), call_err: kani::any(), cerr: kani::any(), add: kani::any() };
+        kani::assume(s.rs[0] <= 2 && s.rs[1] <= 2 && s.rs[2] <= 2 && s.call_pend <= 2);
         s
     }
     impl Script { fn out(&self, req: u8) -> Result<u8, u8> { if self.call_err { Err(self.cerr) } else { Ok(req.wrapping_add(self.add)) } } }
@@ -46,8 +47,13 @@ mod h {
         type Response = u8; type Error = u8; type Future = LeafFut;
         fn poll_ready(&self, cx: &mut Context<'_>) -> Poll<Result<(), u8>> {
             let s = st(self.0); s.ready_waker = wid(cx);
-            if s.ready_polls < self.1.ready_pend { s.ready_polls += 1; s.last_ready = 2; return Poll::Pending; }
-            if self.1.ready_err { s.last_ready = 3; Poll::Ready(Err(self.1.rerr)) } else { s.last_ready = 1; Poll::Ready(Ok(())) }
+            let a = if (s.ready_polls as usize) < 3 { self.1.rs[s.ready_polls as usize] } else { 0 };
+            s.ready_polls += 1;
+            match a {
+                1 => { s.last_ready = 2; Poll::Pending }
+                2 => { s.last_ready = 3; Poll::Ready(Err(self.1.rerr)) }
+                _ => { s.last_ready = 1; Poll::Ready(Ok(())) }
+            }
         }
         fn call(&self, req: u8) -> LeafFut {
             let s = st(self.0); s.calls += 1; s.req = req; s.fut_started = true;
@@ -150,7 +156,7 @@ mod h {
                     let w = waker(round); let mut cx = Context::from_waker(&w);
                     match svc.poll_ready(&mut cx) {
                         Poll::Ready(Ok(())) => {
-                            let mut i = 0; while i < $n { assert!(st(i).last_ready == 1, "C12: ready only if every inner service is ready"); i += 1; }
+                            let mut i = 0; while i < $n { assert!(st(i).last_ready == 1 && st(i).ready_waker == round, "C12: ready only if every inner service reported ready in this poll"); i += 1; }
                             kani::cover!(round > 1, "ready after pending"); return;
                         }
                         Poll::Ready(Err(e)) => {
@@ -166,7 +172,9 @@ mod h {
                             let mut i = 0; let mut some = false;
                             while i < $n {
                                 let s = st(i);
-                                if s.last_ready == 2 { some = true; assert!(s.ready_waker == round, "C12: every still-pending inner service was polled with the current waker"); }
+                                if s.last_ready == 2 { some = true; }
+                                // not known to be ready (pending, or not asked yet) => it must hold the current waker, otherwise its wake-up is lost
+                                if s.last_ready != 1 || s.ready_waker != round { assert!(s.ready_waker == round, "C12: every still-pending inner service was polled with the current waker"); }
                                 assert!(s.last_ready != 3, "C12: an inner readiness error is never swallowed into Pending");
                                 i += 1;
                             }
